@@ -1538,6 +1538,8 @@ def exceptHandler : Nat → Nat → Node → Handler
         | [st] => if st.name == "statements" then pure (none, st) else throw (Sig.unsupported "except clause shape")
         | [a, st] =>
           if a.name == "as" && st.name == "statements" then do pure (some (← tokOf (← child a 0)).val, st)
+          -- `except "T" e { }`: evalExcept skips the identifier child (nothing is bound)
+          else if a.name == "identifier" && st.name == "statements" then pure (none, st)
           else throw (Sig.unsupported "except clause shape")
         | _ => throw (Sig.unsupported "except clause shape"))
       if ← typedMatch ty bytesToString (strs.map fun ch => eval f sc ch) then
